@@ -86,6 +86,18 @@ theorem sijkl_roundtrip' (S : T4 K) (h : MinorSymm S) : sijklGet (sijklSetRaw S)
   have := mult_ne_zero (K := K) (voigt k l)
   push_cast; field_simp
 
+/-- the same linear stress-strain law in both pictures: `σ_ij = Σ_kl C_ijkl ε_kl` is `σ_a = Σ_b c_ab ε̂_b` with the
+    engineering strains `ε̂_b = mult(b)·ε_b` (symmetric `ε`). -/
+theorem hooke_voigt (c : M6 K) (e : M33 K) (he : ∀ i j, e i j = e j i) (i j : Fin 3) :
+    (sum3 fun k => sum3 fun l => cijklGet c i j k l * e k l)
+      = ∑ b : Fin 6, c (voigt i j) b * ((mult b : K) * e (pairOf b).1 (pairOf b).2) := hooke_voigt_aux c e he i j
+
+/-- the inverse law `ε_ij = Σ_kl S_ijkl σ_kl` is `ε̂_a = mult(a)·ε_a = Σ_b s_ab σ_b` (symmetric `σ`):
+    this is what the `/2`, `/4` and `2.`, `4.` weights are for. -/
+theorem hooke_inverse_voigt (s : M6 K) (σ : M33 K) (hσ : ∀ i j, σ i j = σ j i) (i j : Fin 3) :
+    (mult (voigt i j) : K) * (sum3 fun k => sum3 fun l => sijklGet s i j k l * σ k l) =
+      ∑ b : Fin 6, s (voigt i j) b * σ (pairOf b).1 (pairOf b).2 := hooke_inverse_voigt_aux s σ hσ i j
+
 /-- stiffness contracted with compliance is the symmetric identity: from `C·S = 1` (6x6),
     `Σ_kl C_ijkl S_klmn = ½(δ_im δ_jn + δ_in δ_jm)`. -/
 theorem stiffness_compliance_identity (c s : M6 K)
